@@ -33,7 +33,8 @@ import wire
 
 LEAN_MODULES = ["PySMT.Props.C09"]
 RULE = ("type-directed random formulas of every sort (Bool/Int/Real/BV/String/Array/UF/quantifiers, shared sub-terms) over "
-        "symbols named by a name generator (simple, needing quotes, leading digit, spaces, .def_0-like, never reserved "
+        "symbols named by a name generator (simple, needing quotes, leading digit, spaces, .def_0-like -- in half of the "
+        "universes a run of 2-4 CONSECUTIVE .def_k names, k from 0 to 10, given to the Bool/Int symbols --, never reserved "
         "words or literal spellings); scripts made of every serialisable command (incl. define-fun, declare-sort, "
         "push/pop, OMT commands); a case is non-trivial when the formula is not a leaf; distinct = distinct "
         "(printer, formula) pairs / script texts")
@@ -63,15 +64,28 @@ NAME_POOL_ESC = ["a|b", "back\\slash", "|", "\\"]
 class Names:
     """name generator; every name is used for one symbol only"""
 
-    def __init__(self, rng, hr=False, esc=True):
+    def __init__(self, rng, hr=False, esc=True, def_run=False):
         self.rng = rng
         self.used = set()
         self.hr = hr
         self.esc = esc
         self.kinds = {}
+        # a run of CONSECUTIVE let-like names (.def_k, .def_k+1, ...: the names the DAG printer gives to its lets, k = number of
+        # lets written before): handed out to the symbols made first (the Bool and Int symbols of a universe, the ones formulas
+        # mention most), so that one formula regularly holds 2-4 user symbols whose names are the printer's next candidates
+        self.run = []
+        if def_run and not hr:
+            k = rng.choice([0, 0, 0, 0, 1, 1, 2, 3, 4, 4, 7])
+            self.run = [".def_%d" % (k + i) for i in range(rng.choice([2, 2, 3, 3, 4]))]
 
     def make(self, base):
         r = self.rng
+        if self.run and r.random() < 0.7:
+            n = self.run.pop(0)
+            if n not in self.used:
+                self.used.add(n)
+                self.kinds[n] = "def-like"
+                return n
         for _ in range(100):
             k = r.random()
             if k < 0.45:
@@ -347,7 +361,9 @@ def run_smt_roundtrip(ctx, n):
             break
         if i % 25 == 0:
             env = Environment()
-            names = Names(ctx.rng)
+            names = Names(ctx.rng, def_run=ctx.rng.random() < 0.5)
+            if names.run:
+                ctx.count("universes_with_consecutive_def_names")
             uni = NamedUniverse(env, names)
             fg = gen.FormulaGen(ctx.rng, uni, max_depth=4, quant_prob=0.1)
         mgr = env.formula_manager
@@ -357,6 +373,8 @@ def run_smt_roundtrip(ctx, n):
             continue
         has_av = _has(f, op.ARRAY_VALUE)
         decls = declarations(env, [f], extra_syms=[v for v in uni.qvars])
+        if _consecutive_def_names(f):
+            ctx.count("formulas_with_consecutive_def_names")
         for dag in (False, True):
             pname = "dag" if dag else "tree"
             try:
@@ -399,6 +417,16 @@ def run_smt_roundtrip(ctx, n):
                              dict(rep, returned=semantic.readable(g)))
             else:
                 ctx.sample({"printer": pname, "text": text[:200]})
+
+
+def _consecutive_def_names(f):
+    """does f mention two free symbols named .def_k and .def_k+1 (two successive let names of the DAG printer)?"""
+    ks = set()
+    for s in f.get_free_variables():
+        mt = re.match(r"^\.def_(\d+)$", s.symbol_name())
+        if mt:
+            ks.add(int(mt.group(1)))
+    return any(k + 1 in ks for k in ks)
 
 
 def _has_int_const_div(f):
@@ -667,7 +695,7 @@ def run_script_roundtrip(ctx, n):
         if ctx.time_left() < (60 if quick else 250):
             break
         env = Environment()
-        names = Names(ctx.rng, esc=False)
+        names = Names(ctx.rng, esc=False, def_run=ctx.rng.random() < 0.4)
         profile = ctx.rng.choice(["mixed", "mixed", "real", "bv", "int"])
         uni = NamedUniverse(env, names, theories=SCRIPT_PROFILES[profile][0], widths=(1, 2, 4, 8))
         fg = gen.FormulaGen(ctx.rng, uni, max_depth=3, quant_prob=0.08)
@@ -787,9 +815,28 @@ def run_text_script_roundtrip(ctx, n):
         for x, y in zip(a, b):
             d = compare_commands(env, x, y)
             if d:
+                shp = _script_shape(d)
+                if _default_weight_reread(env, x, y):
+                    shp = "default-weight-under-logic-without-ints"      # P07
                 ctx.report_s({"oracle": "script-roundtrip", "kind": "command-differs", "stage": "parsed-text", "command": x.name,
-                              "shape": _script_shape(d)}, d, rep)
+                              "shape": shp}, d, rep)
                 break
+
+
+def _default_weight_reread(env, x, y):
+    """x, y: the same assert-soft command before / after a round trip; do they differ exactly in that the default weight (the
+    integer 1, never written in the text x was read from) came back as the real 1.0 (the numeral of the re-serialisation read
+    under a logic without integers)?"""
+    if x.name != smtcmd.ASSERT_SOFT or y.name != smtcmd.ASSERT_SOFT:
+        return False
+    try:
+        (fx, ox), (fy, oy) = x.args, y.args
+        ox, oy = dict(ox), dict(oy)
+        wx, wy = ox.pop(":weight"), oy.pop(":weight")
+    except (ValueError, KeyError, TypeError):
+        return False
+    return (same_arg(env, fx, fy) and ox == oy and wx.is_int_constant() and wx.constant_value() == 1
+            and wy.is_real_constant() and wy.constant_value() == 1)
 
 
 def _script_shape(desc):
